@@ -8,7 +8,7 @@
     fields.go's [compress] for UNCOMPRESSED (without the second the statement
     is false — ReaderProofs2.Example.ident_needed). *)
 From Coq Require Import List NArith ZArith.
-From PQ Require Import Bytes Schema Dremel DremelProofs MetaTypes Writer Reader WriterProofs ReaderProofs ReaderProofs2.
+From PQ Require Import Bytes Schema Dremel DremelProofs MetaTypes Writer Reader WriterProofs ReaderProofs ReaderProofs2 FooterBounds RoundtripInputs.
 Import ListNotations.
 
 (** For every shape, page size >= 1, codec, and every list of non-empty
@@ -29,6 +29,30 @@ Theorem C01_write_read_roundtrip :
      o_recs := concat bs |}.
 Proof. exact write_read_roundtrip. Qed.
 Print Assumptions C01_write_read_roundtrip.
+
+(** The same with every hypothesis on the INPUTS: [footer_ok] (a condition on the
+    written footer) is derived from bounds on the names (well-formed bytes, at
+    most M bytes each), on the schema size and number of batches (through
+    [footer_len_bound], which keeps the encoded footer below 2^32), on the
+    batch sizes (< 2^31 records) and on the data section (< 2^62 bytes). *)
+Theorem C01_write_read_roundtrip_inputs :
+  forall (compress : Z -> bytes -> bytes) (decompress : Z -> bytes -> option bytes),
+  (forall c x, codec_ok c -> decompress c (compress c x) = Some x) ->
+  (forall x, compress CODEC_UNCOMPRESSED x = x) ->
+  forall M cfg bs,
+  ReaderProofs2.cfg_ok cfg -> Forall (ReaderProofs2.batch_ok compress cfg) bs ->
+  shape_names_ok (cfg_fields cfg) -> (4 <= M)%N -> shape_names_le M (cfg_fields cfg) ->
+  (footer_len_bound M (columns (cfg_fields cfg)) (nlen bs) < 2 ^ 32)%N ->
+  Forall (fun b => (nlen b < 2 ^ 31)%N) bs ->
+  (nlen (ReaderProofs2.data_bytes compress cfg bs) + 4 < 2 ^ 62)%N ->
+  read_all decompress (cfg_fields cfg) (file_of_batches compress cfg bs) =
+  {| o_open_ok := true;
+     o_rows := Z.of_nat (length (concat bs));
+     o_nexts := N.of_nat (length (concat bs));
+     o_err := false; o_panic := false;
+     o_recs := concat bs |}.
+Proof. exact write_read_roundtrip_inputs. Qed.
+Print Assumptions C01_write_read_roundtrip_inputs.
 
 (** The same for every Add/Write history: what is read back is the
     concatenation of the non-empty written batches. *)
